@@ -115,3 +115,37 @@ func BeforeWrite(kind string) error {
 	}
 	return nil
 }
+
+var (
+	readFailAt int
+	reads      int
+	readHit    bool
+)
+
+// SetReadPlan makes the n-th object read (1-based) fail once and resets the read
+// counter; n = 0 switches read failures off.
+func SetReadPlan(n int) {
+	mu.Lock()
+	readFailAt, reads, readHit = n, 0, false
+	mu.Unlock()
+}
+
+// Reads returns the number of object reads seen since the last SetReadPlan and
+// whether a failure was injected.
+func Reads() (int, bool) {
+	mu.Lock()
+	defer mu.Unlock()
+	return reads, readHit
+}
+
+// BeforeRead is called before a read of an object reaches the object store.
+func BeforeRead(kind string) error {
+	mu.Lock()
+	defer mu.Unlock()
+	reads++
+	if readFailAt > 0 && reads == readFailAt {
+		readHit = true
+		return ErrInjected
+	}
+	return nil
+}
